@@ -2,7 +2,7 @@
   replay:   C19.py <witness.json>        -> prints REPRODUCED, exit 0 when the real code breaks the named clause
   bounded:  C19.py --bounded <seed>      -> differential run of the compiled kernels and the grid descriptors against float64 numpy;
                                              prints a json summary line.  Bounded: never counted as proved."""
-import sys, json, itertools
+import sys, os, json, itertools
 import numpy as np
 import molli as ml
 from molli.descriptor import gridbased as G
@@ -215,19 +215,27 @@ if sys.argv[1] == "--bounded":
     rng = np.random.default_rng(seed)
     nk, ndown, vio = check_kernels(rng)
     nf = ng = nn = 0
+    def guarded(sig, f, *a):
+        # an exception escaping from the library on a valid input is itself a violation (the functions are total on these inputs)
+        try:
+            return list(f(*a))
+        except BaseException as ex:
+            import traceback
+            where = traceback.extract_tb(ex.__traceback__)[-1]
+            return [{"signature": f"{sig}/raised", "what": f"{sig} raised {type(ex).__name__}: {str(ex)[:80]} ({os.path.basename(where.filename)}:{where.lineno})"}]
     for _ in range(60):
-        vio += check_fields(rng)
+        vio += guarded("aso/aeif", check_fields, rng)
         nf += 1
     for _ in range(60):
-        vio += check_grid(rng)
+        vio += guarded("rectangular_grid", check_grid, rng)
         ng += 1
     for _ in range(60):
         for kind in ("geometry", "ensemble"):
             md = float(rng.uniform(0.5, 4))
-            for msg in check_nearest(rng, kind, md):
-                vio.append({"signature": f"nearest_atom_index/{kind}", "what": msg})
-            for msg in check_prune(rng, kind, md, float(rng.uniform(0, 1))):
-                vio.append({"signature": f"prune/{kind}", "what": msg})
+            for msg in guarded(f"nearest_atom_index/{kind}", check_nearest, rng, kind, md):
+                vio.append(msg if isinstance(msg, dict) else {"signature": f"nearest_atom_index/{kind}", "what": msg})
+            for msg in guarded(f"prune/{kind}", check_prune, rng, kind, md, float(rng.uniform(0, 1))):
+                vio.append(msg if isinstance(msg, dict) else {"signature": f"prune/{kind}", "what": msg})
             nn += 1
     seen, uniq = set(), []
     for v in vio:
